@@ -105,6 +105,15 @@ def _jar_key(clause, ln):
 
 def run_jar_sm(ctx: Ctx):
     q = ctx.quick
+    ctx.rule += ("; jar state machine: histories (requests with/without Set-Cookie, followed redirects, Client.set_cookie / delete_cookie / "
+                 "get_cookie, clock steps) on one werkzeug.test.Client = one per exported model transition (shortest path + transition) plus "
+                 "seeded random histories over 6 hosts x 7 paths x 3 names x 11 values; non-trivial = history with >= 2 steps")
+    ctx.assumptions += [
+        "jar contract: domain / path matching as in RFC 6265 5.1.3 / 5.1.4 (what Client.set_cookie documents); Max-Age=0 or Expires=epoch deletes; "
+        "expired cookies and Secure cookies over http may or may not be sent (the client documents that it ignores such parameters); a Set-Cookie "
+        "whose Domain does not cover the responding host is outside the contract (rest of that history is not judged)",
+        "the jar never reads a clock: the patched clock only drives dump_cookie's clock-derived Expires, which the stored cookie must show",
+    ]
     import concurrent.futures as cf
 
     variants = (("MCJQ_nodot", "AllRequestsOK"), ("MCJQ_noslash", "AllRequestsOK"), ("MCJQ_keepdeleted", "DeleteSteps"))
